@@ -160,7 +160,36 @@ def bare_tempo_unit(ctx, ci, rule):
     ctx.ob(rule, m, m.node, False, why, construct=cons, unknown=why)
 
 
+def current_qpm(ctx, ci, rule):
+  """Location-independent: notes are timed with "the tempo in force", which in a tune is the Q: field read last.  ABCTune._qpm must
+  therefore take the last element of the tempo list (fields are appended as they are read).  Choosing by time - max(..., key=time),
+  sorted(...)[-1] - is not the same: two Q: fields can stand at the same moment (a header Q: and an inline [Q:] before the first
+  note), max returns the *first* of equal keys, and the earlier mark would govern."""
+  m = ci.methods.get('_qpm')
+  cons = 'the tempo in force is the tempo field read last'
+  if m is None:
+    why = 'cannot classify: ABCTune._qpm not found'
+    ctx.ob(rule, ci, ci.node, False, why, construct=cons, unknown=why)
+    return
+  rets = [r for r in ast.walk(m.node) if isinstance(r, ast.Return) and r.value is not None and isinstance(r.value, ast.Attribute) and r.value.attr == 'qpm']
+  if not rets:
+    why = 'cannot classify: _qpm returns no .qpm of a tempo'
+    ctx.ob(rule, m, m.node, False, why, construct=cons, unknown=why)
+    return
+  for r in rets:
+    src = U.expand_locals(m.node, r.value.value, at=r)
+    if isinstance(src, ast.Subscript) and U.const_value(src.slice) == -1 and norm_text(src.value).endswith('.tempos'):
+      ctx.ob(rule, m, r, True, 'the last tempo of the list, i.e. the field read last', construct=cons)
+    elif isinstance(src, ast.Call) and dotted(src.func) in ('max', 'min') and any(k.arg == 'key' for k in src.keywords):
+      ctx.ob(rule, m, r, False, '%s picks the tempo by a key: among tempo fields that stand at the same moment %s returns the first one, so the field read last does not govern the '
+             'notes that follow it' % (norm_text(src)[:70], dotted(src.func)), construct=cons, definite=True)
+    else:
+      why = 'cannot classify: the current tempo is taken from %s' % norm_text(src)[:70]
+      ctx.ob(rule, m, r, False, why, construct=cons, unknown=why)
+
+
 def run(ctx):
+  current_qpm(ctx, ctx.cls('abc_parser:ABCTune'), 'TEMPO/last-read-governs')
   tune_separation(ctx, 'TUNES/blank-line-separation')
   bare_tempo_unit(ctx, ctx.cls('abc_parser:ABCTune'), 'TEMPO/bare-unit-current')
   fd = fold.Folder(ctx.P, ctx.S)
@@ -571,6 +600,29 @@ def accidentals(ctx, ci):
   if ok:
     tests = [norm_text(t) for (t, pol) in U.enclosing_tests(fn, U.parent(fn, clears[0])) if pol]
     ok = any('BAR_AND_REPEAT_SYMBOLS_PATTERN' in t for t in tests[:1])
+  # location-independent: *every* bar symbol ends the scope of the bar's accidentals - the clearing may depend on which pattern
+  # matched, never on what the bar symbol looks like (its colons / brackets, i.e. the groups of the match)
+  def _reads_groups(x):
+    return any(isinstance(y, ast.Call) and isinstance(y.func, ast.Attribute) and y.func.attr in ('group', 'groups') for y in ast.walk(x))
+  group_names = set()       # locals that hold (parts of) the groups of the match, also through tuple unpacking and derived values
+  changed_ = True
+  while changed_:
+    changed_ = False
+    for st2 in U.walk_stmts(fn):
+      if isinstance(st2, ast.Assign) and (_reads_groups(st2.value) or any(isinstance(y, ast.Name) and y.id in group_names for y in ast.walk(st2.value))):
+        for t2 in st2.targets:
+          for y in ast.walk(t2):
+            if isinstance(y, ast.Name) and y.id not in group_names:
+              group_names.add(y.id)
+              changed_ = True
+  for c_ in clears:
+    st_ = U.parent(fn, c_)
+    cs_ = [(U.expand_locals(fn, t, at=st_), pol) for t, pol in U.path_conditions(fn, st_)]
+    shape = [(t, pol) for t, pol in cs_ if _reads_groups(t) or any(isinstance(y, ast.Name) and y.id in group_names for y in ast.walk(t))]
+    ctx.ob('ACC/bar-clears-every-bar', fi, c_, not shape, 'the clearing does not depend on the shape of the bar symbol' if not shape else
+           'bar accidentals are cleared only when %s: a bar line that carries repeat colons or brackets (:|, |:, ::, |], [|) no longer ends the scope of the accidentals written in the bar before, '
+           'so a later note of that letter is still altered' % ' and '.join(('' if pol else 'not ') + norm_text(t) for t, pol in shape)[:160],
+           construct='every bar symbol clears the bar accidentals', definite=True)
   ctx.ob('ACC/bar-clears', fi, clears[0] if clears else fn, ok, 'bar accidentals are cleared exactly at bar lines' if ok else
          'bar accidentals are not cleared exactly in the bar-line branch')
   upper = any(isinstance(s, ast.Assign) and norm_text(s.targets[0]) == 'note_name' and norm_text(s.value) == 'match.group(2).upper()' for s in U.walk_stmts(fn))
